@@ -17,7 +17,14 @@ pub enum Sm {
 	Del(usize),
 	Ins(usize, u8),
 	Transp(usize),
+	/// the byte at the position replaced by a multi-byte UTF-8 character (index into UTF8_CHARS)
+	SubstChar(usize, usize),
+	/// a multi-byte UTF-8 character inserted before the position
+	InsChar(usize, usize),
 }
+
+/// 2-, 3- and 4-byte characters: the text stays valid UTF-8, but byte offsets stop being character boundaries
+pub const UTF8_CHARS: [&str; 3] = ["\u{e9}", "\u{3002}", "\u{1f600}"];
 
 impl Sm {
 	pub fn apply(&self, b: &[u8]) -> Option<Vec<u8>> {
@@ -68,6 +75,26 @@ impl Sm {
 					None
 				}
 			}
+			Sm::SubstChar(p, c) => {
+				if p < b.len() {
+					let mut o = b[..p].to_vec();
+					o.extend_from_slice(UTF8_CHARS[c].as_bytes());
+					o.extend_from_slice(&b[p + 1..]);
+					Some(o)
+				} else {
+					None
+				}
+			}
+			Sm::InsChar(p, c) => {
+				if p <= b.len() {
+					let mut o = b[..p].to_vec();
+					o.extend_from_slice(UTF8_CHARS[c].as_bytes());
+					o.extend_from_slice(&b[p..]);
+					Some(o)
+				} else {
+					None
+				}
+			}
 		}
 	}
 	pub fn describe(&self) -> String {
@@ -77,6 +104,8 @@ impl Sm {
 			Sm::Del(p) => format!("delete byte {}", p),
 			Sm::Ins(p, v) => format!("insert 0x{:02x} before byte {}", v, p),
 			Sm::Transp(p) => format!("swap bytes {} and {}", p, p + 1),
+			Sm::SubstChar(p, c) => format!("byte {} := the {}-byte character U+{:04X}", p, UTF8_CHARS[c].len(), UTF8_CHARS[c].chars().next().unwrap() as u32),
+			Sm::InsChar(p, c) => format!("insert the {}-byte character U+{:04X} before byte {}", UTF8_CHARS[c].len(), UTF8_CHARS[c].chars().next().unwrap() as u32, p),
 		}
 	}
 }
@@ -88,6 +117,7 @@ pub enum MClass {
 	Del,
 	Ins,
 	Transp,
+	Utf8Char,
 	JsonNode,
 	BinField,
 	Frame,
@@ -103,6 +133,7 @@ impl MClass {
 			MClass::Del => "deletion",
 			MClass::Ins => "insertion",
 			MClass::Transp => "transposition",
+			MClass::Utf8Char => "multibyte-character",
 			MClass::JsonNode => "json-node",
 			MClass::BinField => "length-field",
 			MClass::Frame => "armor-framing",
@@ -125,6 +156,13 @@ pub fn byte_class_len(c: MClass, n: usize, text: bool) -> usize {
 		MClass::Del => n,
 		MClass::Ins => (n + 1) * ia,
 		MClass::Transp => n.saturating_sub(1),
+		MClass::Utf8Char => {
+			if text {
+				n * UTF8_CHARS.len() + (n + 1) * UTF8_CHARS.len()
+			} else {
+				0
+			}
+		}
 		_ => 0,
 	}
 }
@@ -162,6 +200,16 @@ pub fn byte_class_get(c: MClass, b: &[u8], text: bool, i: usize) -> Sm {
 			}
 		}
 		MClass::Transp => Sm::Transp(i),
+		MClass::Utf8Char => {
+			let k = UTF8_CHARS.len();
+			let n_subst = b.len() * k;
+			if i < n_subst {
+				Sm::SubstChar(i / k, i % k)
+			} else {
+				let j = i - n_subst;
+				Sm::InsChar(j / k, j % k)
+			}
+		}
 		_ => unreachable!(),
 	}
 }
